@@ -555,7 +555,7 @@ func (m c16) Run(c *core.Ctx) {
 	}
 	// positions at byte 0 of a file (line 1, column 1): the failing statement or the calling statement is the very first
 	// thing in the main script or in a module, with one, two or three files in the set
-	for bi, ch := range append(c16byteZeroChains(), c16reentrantChains()...) {
+	for bi, ch := range append(append(c16byteZeroChains(), c16reentrantChains()...), c16observedChains()...) {
 		idx++
 		if idx%c.NBatch != c.Batch {
 			continue
@@ -567,6 +567,11 @@ func (m c16) Run(c *core.Ctx) {
 		c.Count("byte_zero_chains")
 		c.Nontrivial(fmt.Sprintf("byte0-%d", bi))
 		m.checkChain(c, ch)
+	}
+	idx++
+	if idx%c.NBatch == c.Batch && c.Begin(func() string { return "observed law" }) {
+		m.observedLaw(c)
+		c.Nontrivial("observed-law")
 	}
 	n := c.Pick(60, 20000)
 	for i := 0; i < n; i++ {
@@ -597,7 +602,72 @@ func c16reentrantChains() []c16chain {
 			Expect: []string{"(main):9", "(main):6", "(main):6", "(main):6", "(main):4", "(main):10"}, Fail: "direct-recursion"},
 		{Main: "m := import(\"cb\")\nstep := func(n) {\n  if n == 0 {\n    throw error(\"deep\")\n  }\n  r := m(step, n - 1)\n  return r\n}\nout := m(step, 2)\nreturn out\n",
 			Modules: map[string]string{"cb": "return func(f, n) {\n  v := f(n)\n  return v\n}\n"},
-			Expect: []string{"(main):9", "cb:2", "(main):6", "cb:2", "(main):6", "cb:2", "(main):4"}, Fail: "module-callback-reentry"},
+			Expect:  []string{"(main):9", "cb:2", "(main):6", "cb:2", "(main):6", "cb:2", "(main):4"}, Fail: "module-callback-reentry"},
+	}
+}
+
+// c16observedChains: an error is caught half-way, looked at (formatted with %+v, its fields read, wrapped) and thrown
+// again; what the script does with the error value must not change the trace the uncaught error finally reports. The
+// variants differ only in the "look" line, so all of them have the same expected trace.
+func c16observedChains() []c16chain {
+	var out []c16chain
+	for _, look := range []string{"logged = 1", "logged = sprintf(\"%+v\", err)", "logged = string(err) + err.Message + err.Name", "logged = sprintf(\"%v %+v\", err, err) + sprintf(\"%+v\", err)", "logged = isError(err) ? sprintf(\"%+v\", [err]) : 0"} {
+		out = append(out, c16chain{
+			Main:   "logged := \"\"\ninner := func() {\n  throw error(\"boom\")\n}\nmiddle := func() {\n  try {\n    inner()\n  } catch err {\n    " + look + "\n    throw err\n  }\n}\nouter := func() {\n  middle()\n}\nouter()\n",
+			Expect: []string{"(main):16", "(main):14", "(main):10", "(main):7", "(main):3"}, Fail: "observed-rethrow"})
+	}
+	return out
+}
+
+// observedLaw: the same script with different "look at the error" lines (same line count) reports the same trace; the
+// baseline is the variant that does not look at the error at all.
+func (m c16) observedLaw(c *core.Ctx) {
+	looks := []string{"logged = 1", "logged = sprintf(\"%+v\", err)", "logged = string(err) + err.Message", "logged = sprintf(\"%+v|%+v\", err, [err])", "logged = err.New(\"wrapped\") == err"}
+	families := []struct {
+		name, tmpl string
+		mods       map[string]string
+	}{
+		{"module", "logged := \"\"\ninner := import(\"thrower\")\nmiddle := func() {\n  try {\n    inner()\n  } catch err {\n    %s\n    throw err\n  }\n}\nouter := func() {\n  try {\n    middle()\n  } catch err {\n    %s\n    throw err\n  } finally {\n    logged = 0\n  }\n}\nouter()\n", map[string]string{"thrower": "return func() {\n  throw error(\"x\")\n}\n"}},
+		{"runtime-error", "logged := \"\"\ninner := func(a) {\n  return a[5]\n}\nmiddle := func() {\n  try {\n    return inner([1])\n  } catch err {\n    %s\n    throw err\n  }\n}\nr := middle()\nreturn r // %s\n", nil},
+	}
+	for _, fam := range families {
+		var base []string
+		for li, look := range looks {
+			src := fmt.Sprintf(fam.tmpl, look, look)
+			mm := ugo.NewModuleMap()
+			for n, ms := range fam.mods {
+				mm.AddSourceModule(n, []byte(ms))
+			}
+			for _, noopt := range []bool{true, false} {
+				cr := safeCompile([]byte(src), ugo.CompilerOptions{ModuleMap: mm, NoOptimize: noopt})
+				if cr.err != nil || cr.panicv != "" {
+					c.Inconclusive("observed-law script does not compile: " + fmt.Sprint(cr.err) + cr.panicv)
+					continue
+				}
+				var err error
+				func() {
+					defer func() {
+						if r := recover(); r != nil {
+							err = fmt.Errorf("host panic: %v", r)
+						}
+					}()
+					_, err = ugo.NewVM(cr.bc).Run(c16globals())
+				}()
+				got, _ := traceList(err)
+				c.Count("observed_law_runs")
+				if li == 0 && noopt {
+					base = got
+					if len(base) < 3 {
+						c.Inconclusive("observed-law baseline has no trace: " + fmt.Sprint(err))
+					}
+					continue
+				}
+				if strings.Join(got, " ") != strings.Join(base, " ") {
+					c.Violation("C16|observed-trace-changes|"+fam.name, "looking at a caught error before throwing it again changes the trace finally reported", c16wit{Chain: c16chain{Main: src, Modules: fam.mods, Fail: "observed-law-" + fam.name}, Config: fmt.Sprintf("noopt=%v look=%q", noopt, look), Got: got, Want: base, Why: "trace depends on what the script did with the error value"})
+					return
+				}
+			}
+		}
 	}
 }
 
